@@ -641,8 +641,8 @@ def generate() -> str:
            "From Coq Require Import ZArith List Bool Ascii String.",
            "From Verif Require Import lib.Calendar lib.RegexSub lib.PyStr lib.DatesBase.",
            "Import ListNotations.",
-           "Open Scope string_scope.",
-           "Open Scope Z_scope.", ""]
+           "Local Open Scope string_scope.",
+           "Local Open Scope Z_scope.", ""]
     add = out.append
 
     # ---- Frequency ---------------------------------------------------------
